@@ -1,5 +1,6 @@
 import AslModel.Lemmas.DisHexLoad
 import AslModel.Lemmas.DisHexFile
+import AslModel.Lemmas.DisRetrieve
 import AslModel.Spec.Dis
 /-! C15, part "image given as Intel-hex file" (`dasl -hexfile`): theorems about `Model/Dis/HexLoad.lean`, the transcription of
 das.c `CMD_HexFile` (+ `FlushChunk`, codechunks.c `MoveCodeChunkToList`).
@@ -13,9 +14,11 @@ record's own address.  What is proved:
   the loaded image (`imageByte`, = `Spec.memAt`, the lookup the SPEC check of the driver uses: `C15_hexload_spec_lookup`) gives the
   byte of the record that covers it, `none` outside all records.
 * `C15_hexload_order_independent` – two files with the same records in different orders load to images that agree at every address.
-* `C15_finding_hexload_split_fetch` – recorded defect `dasl-instruction-across-hex-chunks`: the image is right byte by byte, but
-  adjacent records that are not consecutive in the file stay separate chunks and `RetrieveCodeFromChunkList` (model `retrieve`)
-  returns wrong bytes for a fetch across their seam.
+* `C15_hexload_fetch` – what the disassembler callbacks see: for records with pairwise disjoint ranges, in ANY order,
+  `RetrieveCodeFromChunkList` (model `retrieve`) answers a request exactly when the records cover all its addresses, and with the
+  bytes the records give those addresses.  Adjacent records that are not consecutive in the file still stay separate chunks, but a
+  fetch across their seam is continued in the next chunk (`C15_hexload_split_fetch`; before the repair of codechunks.c it returned
+  wrong bytes: former finding `dasl-instruction-across-hex-chunks`).
 * `C15_hexload_file` – from the TEXT of the file: for every Intel-hex file that the independent decoder of `Spec/Hex.lean`
   (written from the public format definition; `C15_hexload_decode_def` spells its three stages out) accepts, that stays inside the
   16-bit address space `CMD_HexFile` knows (`Plain16`) and whose lines fit into `char Line[300]`, the model of `-hexfile` accepts
@@ -112,7 +115,7 @@ theorem C15_hexload_file (text : List Char) (ls : List (List Char)) (irs : List 
     unfold loadRecs at this
     rw [this, holds_filterMap_snoc irs r hrmem, cells_of_run irs dec h16 hrun]
 
-/-- non-vacuity of `C15_hexload_file`: the two-record file of `C15_finding_hexload_split_fetch` (descending record order) -/
+/-- non-vacuity of `C15_hexload_file`: the two-record file of `C15_hexload_split_fetch` (descending record order) -/
 example : ∃ ls irs dec, Hex.splitLines ":0210020034397F\n:02100000B61226\n:00000001FF\n".toList = some ls ∧
     ls.mapM Hex.ihexLine = some irs ∧ Hex.ihexRun false 0 irs = some dec ∧ (∀ l ∈ ls, l.length + 2 ≤ lineBuf) ∧
     irs = [.data 0x1002 [0x34, 0x39], .data 0x1000 [0xb6, 0x12], .eof 0] ∧
@@ -137,14 +140,44 @@ example : loadRecs [⟨0x110, [1, 2]⟩, ⟨0x112, [9]⟩, ⟨0x200, [3]⟩, ⟨
 example : [(⟨0x110, [1, 2]⟩ : CodeChunk), ⟨0x100, [4, 5]⟩].Perm [⟨0x100, [4, 5]⟩, ⟨0x110, [1, 2]⟩] :=
   List.Perm.swap _ _ _
 
-/-- recorded defect `dasl-instruction-across-hex-chunks`: the two records of `B6 12 | 34 39` at $1000 in descending order load to
-the right memory (every address holds the record's byte), but the two chunks are not joined and the two-byte fetch at $1001 –
-the operand of `ldaa $1234` – returns `12 12`; in ascending order the records are joined and the fetch returns `12 34` -/
-theorem C15_finding_hexload_split_fetch :
+/-- a fetch from the loaded image returns the memory content, whatever the order of the records in the file: for data records with
+pairwise disjoint address ranges, a request `RetrieveCodeFromChunkList` answers has the requested length and every byte of it is
+the byte the covering record gives that address; and every request all of whose addresses are covered by records is answered. -/
+theorem C15_hexload_fetch (rs : List CodeChunk) (hd : HexLoad.Disjoint rs) (a n : Nat) :
+    (∀ bs, retrieve (loadRecs rs) a n = some bs → bs.length = n ∧ ∀ k, k < n → bs[k]? = imageByte rs (a + k)) ∧
+    ((∀ k, k < n → (imageByte rs (a + k)).isSome = true) → (retrieve (loadRecs rs) a n).isSome = true) := by
+  have hf : Functional rs := functional_of_disjoint rs hd
+  constructor
+  · intro bs h
+    refine ⟨(retrieve_some _ a n bs h).1, ?_⟩
+    intro k hk
+    obtain ⟨b, hb, c, hc, h1, h2⟩ := retrieve_bytes _ a n bs h k hk
+    have hh : Holds rs (a + k) b := (loadRecs_holds rs (a + k) b).mp ⟨c, hc, h1, h2⟩
+    rw [hb]
+    cases hi : imageByte rs (a + k) with
+    | none => exact absurd hh (imageByte_none rs (a + k) hi b)
+    | some b' => rw [hf (a + k) b b' hh (imageByte_some rs (a + k) b' hi)]
+  · intro hall
+    rw [retrieve_isSome_iff]
+    intro k hk
+    have := hall k hk
+    cases hi : imageByte rs (a + k) with
+    | none => rw [hi] at this; cases this
+    | some b =>
+      obtain ⟨c, hc, hat⟩ := (loadRecs_holds rs (a + k) b).mpr (imageByte_some rs (a + k) b hi)
+      exact ⟨c, hc, hat.1, hat.lt⟩
+
+/-- the witness of the former finding `dasl-instruction-across-hex-chunks`: the two records of `B6 12 | 34 39` at $1000 in descending
+order still load to two chunks (they are not joined), but the two-byte fetch at $1001 – the operand of `ldaa $1234` – now returns
+`12 34` as it does for the ascending file, where the records are joined (before the repair of `RetrieveCodeFromChunkList`: `12 12`) -/
+theorem C15_hexload_split_fetch :
     loadRecs [⟨0x1002, [0x34, 0x39]⟩, ⟨0x1000, [0xb6, 0x12]⟩] = [⟨0x1000, [0xb6, 0x12]⟩, ⟨0x1002, [0x34, 0x39]⟩] ∧
-    retrieve (loadRecs [⟨0x1002, [0x34, 0x39]⟩, ⟨0x1000, [0xb6, 0x12]⟩]) 0x1001 2 = some [0x12, 0x12] ∧
+    retrieve (loadRecs [⟨0x1002, [0x34, 0x39]⟩, ⟨0x1000, [0xb6, 0x12]⟩]) 0x1001 2 = some [0x12, 0x34] ∧
     loadRecs [⟨0x1000, [0xb6, 0x12]⟩, ⟨0x1002, [0x34, 0x39]⟩] = [⟨0x1000, [0xb6, 0x12, 0x34, 0x39]⟩] ∧
     retrieve (loadRecs [⟨0x1000, [0xb6, 0x12]⟩, ⟨0x1002, [0x34, 0x39]⟩]) 0x1001 2 = some [0x12, 0x34] := by
   decide
+
+/-- non-vacuity of `C15_hexload_fetch`: the descending file is a list of disjoint records -/
+example : HexLoad.Disjoint [⟨0x1002, [0x34, 0x39]⟩, ⟨0x1000, [0xb6, 0x12]⟩] := by simp [HexLoad.Disjoint]
 
 end AslModel.Dis
